@@ -22,6 +22,7 @@ type WriterSpec struct {
 	Ops   []Op   `json:"ops"`
 	Large bool   `json:"-"` // drawn from the large class (informative, not part of the case)
 	Many  bool   `json:"-"` // drawn from the many-row-groups class
+	Huge  bool   `json:"-"` // drawn from the huge-value class
 }
 
 // TaskSpec is one instance of a C13 run.
